@@ -213,7 +213,7 @@ def run_one(m, runs, tier_args=()):
         if src.count(m["old"]) < 1 or (m["count"] and src.count(m["old"]) != m["count"]):
             return "BAD-MUTANT (old text occurs %d times)" % src.count(m["old"]), ""
         open(path, "w", newline="").write(src.replace(m["old"], m["new"]))
-        env = dict(os.environ, VERIF_REPO=scratch)
+        env = dict(os.environ, VERIF_REPO=scratch, VERIF_REPLAYS=os.path.join(scratch, "replays"))
         cmd = [os.path.join(VERIF, "check"), m["prop"], "--no-evidence"] + (["--runs", str(runs)] if runs else []) + list(tier_args)
         p = subprocess.run(cmd, cwd=VERIF, env=env, capture_output=True, text=True, timeout=3600)
         sigs = [l.strip() for l in p.stdout.splitlines() if l.strip().startswith("signature=")]
@@ -221,15 +221,6 @@ def run_one(m, runs, tier_args=()):
         return verdict, "; ".join(sigs[:3]) + ("" if p.returncode != 2 else p.stderr[-600:])
     finally:
         shutil.rmtree(scratch, ignore_errors=True)
-        # replays written for mutants are not evidence about /repo
-        rp = os.path.join(VERIF, "replays")
-        if os.path.isdir(rp):
-            for f in os.listdir(rp):
-                if f.endswith(".json") and f.startswith(m["prop"] + "-"):
-                    try:
-                        os.remove(os.path.join(rp, f))
-                    except OSError:
-                        pass
 
 
 def main(argv):
